@@ -38,6 +38,9 @@ pub struct SubCase {
 	pub steps: Vec<H>,
 	/// run the history once per position with an abrupt drop of connection 0 injected there
 	pub sweep_drop: bool,
+	/// host the connections through the low-level `ws::connect` entry point
+	#[serde(default)]
+	pub lowlevel: bool,
 }
 
 #[derive(Clone, Debug, PartialEq)]
@@ -106,7 +109,7 @@ impl SubWorld {
 		let fix = Fixture::new_with(Cfg { max_subs: case.cap, buffer_capacity: case.buf.max(1), ..Cfg::default() }, case.string_ids);
 		let mut conns = vec![];
 		for _ in 0..case.conns.clamp(1, 3) {
-			let ws = fix.ws_with(duplex).await.ok();
+			let ws = if case.lowlevel { fix.ws_lowlevel().await.ok() } else { fix.ws_with(duplex).await.ok() };
 			conns.push(ConnM { open: ws.is_some(), ws, frames: vec![], reading_paused: false, closed_by_stop: false });
 		}
 		SubWorld { fix, conns, insts: vec![], pending: vec![], acks: vec![], n: 0, req_no: 0, stopped: false, unsub_results: vec![], refusals: vec![], failures: vec![], exact, cap: case.cap }
